@@ -59,7 +59,8 @@ def gen_case(rng, fam=None):
         if s.path in seen:
             s.path = "d%d_%s" % (k, s.path)
         seen.add(s.path)
-    opts = ["--color", "never", "--blocksz", str(bsz), "--tz-offset", "+00:00"]
+    # one case in four in colour: which colour a file gets is output too, and must not depend on who was ready first
+    opts = ["--color", "always" if rng.random() < 0.25 else "never", "--blocksz", str(bsz), "--tz-offset", "+00:00"]
     return fam, bsz, srcs, opts
 
 
@@ -140,7 +141,7 @@ def run_case(seed, i, tier):
         cr.faults["schedule_perturbation"] += 1
         if plan.policy.startswith("starve:") and plan.policy != "starve:0":
             cr.faults["slow_source"] += 1
-        vs = mergecheck.evaluate(res, expected)
+        vs = mergecheck.evaluate(res, expected, opts=opts)
         if ref is None:
             ref = (res.stdout, res.rc)
         else:
